@@ -281,6 +281,22 @@ func c16Gen(t *rapid.T) c16Case {
 				s.Rings = [][]fpt{append(pts, pts[0])}
 			}
 		}
+		// collections with enough children for a child index (default threshold 64), made by a constructor or parsed
+		if (s.Kind == "MultiPoint" || s.Kind == "GeometryCollection" || s.Kind == "FeatureCollection") && rapid.IntRange(0, 1).Draw(t, "many") == 0 {
+			m := rapid.SampledFrom([]int{63, 64, 65, 100}).Draw(t, "manyn")
+			pts := make([]fpt, 0, m)
+			for j := 0; j < m; j++ {
+				pts = append(pts, fpt{F(rapid.IntRange(0, 6).Draw(t, "mx")), F(rapid.IntRange(0, 6).Draw(t, "my"))})
+			}
+			if s.Kind == "MultiPoint" {
+				s.Pts = pts
+			} else {
+				s.Children = nil
+				for _, q := range pts {
+					s.Children = append(s.Children, objSpec{Kind: "Point", Pts: []fpt{q}})
+				}
+			}
+		}
 		// polygons with many holes (slices with spare capacity)
 		if s.Kind == "Polygon" && !s.NilPoly && len(s.Rings) > 0 && rapid.IntRange(0, 2).Draw(t, "manyholes") == 0 {
 			for h := rapid.IntRange(3, 9).Draw(t, "nholes"); h > 0; h-- {
